@@ -201,6 +201,7 @@ def dynamic_scenarios(root):
     fails += package_init_scenario(root)
     fails += names_scenario(root)
     fails += cross_package_scenario(root)
+    fails += rebound_explicit_scenario(root)
     seq = [["import"], ["deps", "late_user"], ["call", "late_user", 1], ["bind", "aux", "late", "secret"], ["deps", "late_user"], ["call", "late_user", 2]]
     out = vrun.child(dict(root=root, pkg=pkg, store=os.path.join(root, "store2"), actions=seq))
     try:
@@ -342,6 +343,42 @@ def cross_package_scenario(root):
                 fails.append(dict(clause="undeclared-call-refused", scenario="hidden-call-through-a-batch-entry-point", fn=who, got=res[:2]))
     except Exception as e:
         fails.append(dict(clause="dependencies-computable", scenario="cross-package-and-builtin-names", error=repr(e), out=out))
+    return fails
+
+
+def rebound_explicit_scenario(root):
+    """the dependencies of an explicitly versioned function are those of the reference graph as it is *now*: a plain binding its
+    helper goes through is re-bound (no memento function is defined in between), a helper that did not exist is defined"""
+    pkg = "vreb_%d" % os.getpid()
+    d = os.path.join(root, pkg)
+    os.makedirs(d, exist_ok=True)
+    open(os.path.join(d, "__init__.py"), "w").write("")
+    M = 'from twosigma.memento import memento_function\n'
+    open(os.path.join(d, "aux.py"), "w").write(
+        M + '\n\n@memento_function(cluster="vp")\ndef alpha(x):\n    return x + 1\n\n\n@memento_function(cluster="vp")\ndef beta(x):\n    return x + 2\n\n\n'
+        'def via_alpha(x):\n    return alpha(x)\n\n\ndef via_beta(x):\n    return beta(x)\n\n\nimpl = via_alpha\n')
+    open(os.path.join(d, "mod.py"), "w").write(
+        M + 'from . import aux\n\n\n@memento_function(cluster="vp", version="1")\ndef report(x):\n    return aux.impl(x)\n\n\n'
+        '@memento_function(cluster="vp", version="7")\ndef summary(x):\n    return aux.late(x) if hasattr(aux, "late") else x\n\n\n'
+        '@memento_function(cluster="vp")\ndef auto_report(x):\n    return aux.impl(x)\n')
+    acts = [["import"], ["deps", "report"], ["deps", "summary"], ["deps", "auto_report"], ["bind", "aux", "impl", "via_beta"], ["deps", "report"],
+            ["deps", "auto_report"], ["bind", "aux", "late", "via_beta"], ["deps", "summary"], ["deps", "report"], ["call", "report", 1]]
+    out = vrun.child(dict(root=root, pkg=pkg, store=os.path.join(root, "store_reb"), actions=acts))
+    fails = []
+    try:
+        checks = [(1, "report", ["alpha"]), (2, "summary", []), (3, "auto_report", ["alpha"]), (5, "report", ["beta"]), (6, "auto_report", ["beta"]),
+                  (8, "summary", ["beta"]), (9, "report", ["beta"])]
+        for idx, fn, want in checks:
+            if out[idx]["trans"] != want:
+                fails.append(dict(clause="transitive-dependencies-exact", scenario="binding-re-bound-under-an-explicitly-versioned-function", fn=fn,
+                                  step=idx, got=out[idx]["trans"], expected=want))
+            elif sorted(e[1] for e in out[idx]["edges"]) != want:
+                fails.append(dict(clause="graph-exact", scenario="binding-re-bound-under-an-explicitly-versioned-function", fn=fn, step=idx,
+                                  got=out[idx]["edges"], expected=want))
+        if out[10]["result"][:2] != ["ok", 3]:
+            fails.append(dict(clause="declared-call-allowed", scenario="binding-re-bound-under-an-explicitly-versioned-function", got=out[10]["result"][:3]))
+    except Exception as e:
+        fails.append(dict(clause="dependencies-computable", scenario="binding-re-bound-under-an-explicitly-versioned-function", error=repr(e), out=str(out)[:400]))
     return fails
 
 
